@@ -720,12 +720,32 @@ Proof.
   - intro H. apply (proj2 ea_ha0). now apply inside_prefix.
 Qed.
 
+Lemma env_same_roots : forall c c' w x,
+  c_head c' = c_head c -> c_alt c' = c_alt c -> c_tmp c' = tmproot c ++ [x] ->
+  env_all c w -> env c' w.
+Proof.
+  intros c c' w x Hh Ha Ht E. destruct E. constructor; rewrite ?Hh, ?Ha, ?Ht; auto.
+  - intros q Hq. apply ea_tmp0. eapply inside_snoc_prefix; eauto.
+  - intro H. apply (proj1 ea_ha0). now apply inside_prefix.
+  - intro H. apply (proj2 ea_ha0). now apply inside_prefix.
+Qed.
+
+Lemma root_not_Q_gen : forall c c' w x q,
+  c_head c' = c_head c -> c_alt c' = c_alt c -> c_tmp c' = tmproot c ++ [x] ->
+  env_all c w -> is_root c q -> ~ Qof c' q.
+Proof.
+  intros c c' w x q Hh Ha Ht E R HQ.
+  apply (root_not_Q c w (c_temp c') false [] x q E R).
+  unfold Qof in *. simpl. now rewrite <- Hh, <- Ha, <- Ht.
+Qed.
+
 Definition hop_cfg (c : config) (st : filer) (h : hop) : config :=
   match h with
   | HReopen temp fext _ _ clean =>
     cfg_with c (match temp with Some b => b | None => f_temp st end) clean
              (match fext with Some s => s | None => f_fext st end) (tmp_dir c (f_next st))
   | HClose _ => cfg_with c (f_temp st) false (f_fext st) (tmp_dir c (f_next st))
+  | HRemake nm bs t cl fl ex fx => cfg_call c nm bs t cl fl ex fx (tmp_dir c (f_next st))
   end.
 
 Lemma clear_st_step : forall c st w r w0,
@@ -751,7 +771,16 @@ Theorem hop_ok : forall c st h w r st' w',
 Proof.
   intros c st h w r st' w' E G H.
   assert (NS : forall q, is_root c q -> ~ scope st q) by (intros; eapply root_not_scope; eauto).
-  destruct h as [temp fext cl reuse clean | cl]; simpl in H.
+  destruct h as [temp fext cl reuse clean | cl | nm bs t cl fl ex fx]; simpl in H.
+  3: { (* a direct remake call: no clear part; the object is untouched *)
+    destruct (tmp_dir_snoc c (f_next st)) as [x Hx].
+    set (c' := cfg_call c nm bs t cl fl ex fx (tmp_dir c (f_next st))) in *.
+    assert (E1 : env c' w) by (apply (env_same_roots c c' w x); auto).
+    destruct (remake c' w) as [r1 w1] eqn:Er. inversion H; subst; clear H.
+    pose proof (remake_effects c' w _ _ E1 Er) as S1.
+    exists w. split; [apply step_refl|split; [exact S1|split]].
+    - eapply env_all_step; eauto. intros q Hq. apply (root_not_Q_gen c c' w x q); auto.
+    - intros _. exact G. }
   - (* reopen *)
     set (cs := if cl then clear_st c st w else (Ok tt, w)) in *.
     assert (S0 : step_ok (scope st) w (snd cs)).
